@@ -27,18 +27,20 @@ def sharded(chk):
   configs = [(1, 1, 5, 1), (2, 2, 5, 1), (2, 3, 7, 2), (3, 4, 6, 1), (2, 1, 4, 3), (3, 2, 0, 1)]
   if chk.tier == 'thorough':
     configs += [(w, s, n, b) for w in (1, 2, 3) for s in (1, 2, 3, 4) for n in (1, 3, 8) for b in (1, 2)]
+  variants = [dict(), dict(prog='filtermap'), dict(agg='meanvar'), dict(agg='meanvar', prog='filtermap')]
   for workers, shards, n, bsz in configs:
-    name = f'sharded workers={workers} shards={shards} n={n} batch={bsz}'
-    ref = lib.define_pipeline(n).make().iterate()
-    ref_outs = sorted(ref)
-    ref_agg = list(ref.agg_result) if n else None
+   for kw in (variants if (workers, shards) in ((2, 3), (3, 4), (2, 2)) or chk.tier == 'thorough' else variants[:1]):
+    name = f'sharded workers={workers} shards={shards} n={n} batch={bsz} {kw or ""}'
+    ref = lib.define_pipeline(n, **kw).make().iterate()
+    ref_outs = sorted(map(_key, ref))
+    ref_agg = _norm(ref.agg_result) if n else None
     with dist.cluster(workers, iterate_batch_size=bsz) as c:
       rq = queue.SimpleQueue()
       outs = []
 
       def run():
         for x in c.mods.orchestrate.sharded_pipelines_as_iterator(c.pool, lib.define_pipeline, n, result_queue=rq,
-                                                                  num_shards=shards):
+                                                                  num_shards=shards, **kw):
           outs.append(x)
         return True
 
@@ -48,8 +50,8 @@ def sharded(chk):
       if status != 'ok':
         chk.violation(f'sharded:{status}', f'[{name}] {val!r}', ctx)
         continue
-      if sorted(outs) != ref_outs:
-        chk.violation('sharded:outputs', f'[{name}] outputs {sorted(outs)} != in-process {ref_outs}', ctx)
+      if sorted(map(_key, outs)) != ref_outs:
+        chk.violation('sharded:outputs', f'[{name}] outputs {sorted(map(_key, outs))} != in-process {ref_outs}', ctx)
       results = []
       try:
         results.append(rq.get(timeout=5))
@@ -59,8 +61,8 @@ def sharded(chk):
         pass
       if len(results) != 1:
         chk.violation('sharded:final-result-count', f'[{name}] {len(results)} final AggregateResults', ctx)
-      elif n and sorted(_agg_list(results[0])) != sorted(ref_agg):
-        chk.violation('sharded:aggregate', f'[{name}] {sorted(_agg_list(results[0]))} != {sorted(ref_agg)}', ctx)
+      elif ref_agg not in (None, 'NullMap') and _norm(results[0].agg_result) != ref_agg:
+        chk.violation('sharded:aggregate', f'[{name}] {_norm(results[0].agg_result)} != {ref_agg}', ctx)
       if c.pool.acquired_workers:
         chk.violation('sharded:workers-left-acquired', f'[{name}]', ctx)
 
@@ -143,7 +145,17 @@ def interleaved_remote(chk):
         chk.violation('interleaved-remote:workers-left-acquired', f'[{name}]', ctx)
 
 
+def _key(x):
+  """outputs may be numpy arrays (meanvar variant)"""
+  return float(x.reshape(-1)[0]) if hasattr(x, 'reshape') else x
+
+
 def _norm(a):
+  if hasattr(a, 'count') and hasattr(a, 'mean') and hasattr(a, 'var'):
+    import numpy as np
+    return tuple(round(float(np.asarray(v).reshape(-1)[0]), 9) for v in (a.count, a.mean, a.var))
+  if isinstance(a, dict) and len(a) == 1 and hasattr(list(a.values())[0], 'mean'):
+    return _norm(list(a.values())[0])
   if isinstance(a, dict):
     vals = list(a.values())
     return sorted(vals[0]) if len(vals) == 1 and isinstance(vals[0], list) else repr(a)
